@@ -583,3 +583,91 @@ func (r *R) accumulatorsIndependent(rule string, fn *ssa.Function, a, b, why str
 	}
 	r.Hold(rule, construct, r.fpos(fn), fmt.Sprintf("%d in-loop update site(s)", n))
 }
+
+// iterationPaths enumerates the acyclic paths of one iteration of the natural loop headed by h (from h back
+// to h) and calls visit with the block sequence (h first, h last) and a resolver that maps a phi of h's
+// back-edge operand to the value it has at the end of that path. Paths through no-return calls are skipped.
+func iterationPaths(h *ssa.BasicBlock, stop map[ssa.Value]bool, visit func(path []*ssa.BasicBlock, resolve func(ssa.Value) ssa.Value)) int {
+	inLoop := map[*ssa.BasicBlock]bool{}
+	var mark func(b *ssa.BasicBlock)
+	mark = func(b *ssa.BasicBlock) {
+		if inLoop[b] || !h.Dominates(b) {
+			return
+		}
+		inLoop[b] = true
+		for _, p := range b.Preds {
+			mark(p)
+		}
+	}
+	for _, p := range h.Preds {
+		if h.Dominates(p) {
+			mark(p)
+		}
+	}
+	inLoop[h] = true
+	n := 0
+	var walk func(path []*ssa.BasicBlock)
+	walk = func(path []*ssa.BasicBlock) {
+		if n > 20000 {
+			return
+		}
+		cur := path[len(path)-1]
+		for _, in := range cur.Instrs {
+			if ssax.IsNoReturn(in) {
+				return
+			}
+		}
+		for _, s := range cur.Succs {
+			if s == h {
+				n++
+				full := append(append([]*ssa.BasicBlock(nil), path...), h)
+				resolve := func(v ssa.Value) ssa.Value {
+					for depth := 0; depth < 32; depth++ {
+						p, ok := v.(*ssa.Phi)
+						if !ok || stop[p] {
+							return v
+						}
+						idx := -1
+						for i := len(full) - 1; i >= 1; i-- {
+							if full[i] == p.Block() {
+								idx = i
+								break
+							}
+						}
+						if idx < 1 {
+							return v
+						}
+						found := false
+						for j, q := range p.Block().Preds {
+							if q == full[idx-1] {
+								v = p.Edges[j]
+								found = true
+								break
+							}
+						}
+						if !found {
+							return v
+						}
+					}
+					return v
+				}
+				visit(full, resolve)
+				continue
+			}
+			if !inLoop[s] {
+				continue
+			}
+			on := false
+			for _, q := range path {
+				if q == s {
+					on = true
+				}
+			}
+			if !on {
+				walk(append(path, s))
+			}
+		}
+	}
+	walk([]*ssa.BasicBlock{h})
+	return n
+}
